@@ -224,9 +224,12 @@ def doc_effects(m: Macro) -> Dict[str, str]:
     parameters the formulas never name are absent (prose-only contracts and conditions are not classified)."""
     res: Dict[str, str] = {}
     block_indent: Optional[int] = None
-    for line in m.doc:
+    for li, line in enumerate(m.doc):
         body = line[2:]
-        if not body.startswith('   ') or body.lstrip().startswith('@'):
+        # a formula line is indented by >= 3 spaces, or stands alone between two empty comment lines (stl/casting.fj style)
+        alone = (0 < li < len(m.doc) - 1 and m.doc[li - 1].strip() == '//' and m.doc[li + 1].strip() == '//'
+                 and not re.search(r'\b(is|are|the|and)\b', body))
+        if not (body.startswith('   ') or alone) or body.lstrip().startswith('@'):
             block_indent = None
             continue
         ind = len(body) - len(body.lstrip())
@@ -247,7 +250,10 @@ def doc_effects(m: Macro) -> Dict[str, str]:
             lhs_sizes = set()
             for ext in re.findall(r'\[[^\]]*\]', em.group('lhs')):
                 lhs_sizes |= ids(ext)
-            written = lhs - lhs_sizes
+            # `*ptr = x` writes the pointed cell, not ptr
+            deref = set(re.findall(r'\*\s*([A-Za-z_]\w*)', em.group('lhs')))
+            written = lhs - lhs_sizes - deref
+            lhs_sizes |= deref & lhs
             for q in written:
                 if q not in res:
                     res[q] = 'assign' if em.group('op') == ':=' or (em.group('op') == '=' and q not in rhs) else 'update'
@@ -412,6 +418,8 @@ def scratch_cells(m: Macro) -> Dict[str, int]:
 
 # confirmed by reading: cells that are updated in place without a covering assignment, and why that is sound
 SCRATCH_EXCEPTIONS: Dict[Tuple[str, int, str, str], str] = {
+    ('hex.div', 7, 'q', 'init-first'): 'the quotient is documented `q = a/b` but built by shifting: `shl_hex n, q` runs in each of the n loop '
+                                       'iterations, so every hex of the caller\'s value is shifted out before the macro is left',
     ('hex.div', 7, '_b', 'covered'): 'the top hex of _b is zero at load, `shl_hex nb+1, _b` shifts into it and the four `shr_bit nb+1, _b` of '
                                      'the same iteration shift it out again: it is zero again whenever the macro is left',
 }
@@ -450,12 +458,16 @@ def rule_scratch(rep: Report, stl: Stl, prop: str, files: List[str], floor: int,
         if m.file not in files:
             continue
         cells = scratch_cells(m)
-        if not cells:
-            continue
         names = size_params(fpx, key)
+        # parameters the macro's own doc formula plainly assigns (`p[:E] = ...`) are judged like scratch cells: whatever the
+        # caller left in them must not survive
+        out_params = sorted(q for q, c in doc_effects(m).items() if c == 'assign' and q not in (names or []))
+        if not cells and not out_params:
+            continue
         if names is None:
             rep.uncovered.append(f'{key[0]}/{key[1]}: scratch cells {sorted(cells)} (footprint not computable)')
             continue
+        tracked = set(cells) | set(out_params)
         verdict: Dict[Tuple[str, str], List[str]] = {}
         evaluated = 0
         for combo in itertools.product(*[EXTRA_SIZES.get(nm, SIZES) for nm in names]):
@@ -468,22 +480,35 @@ def rule_scratch(rep: Report, stl: Stl, prop: str, files: List[str], floor: int,
                 env[q] = {q: 1}
             env.update(dict(sz))
             try:
-                touches = fpx.stmt_touches(key, sz, set(cells))
+                touches = fpx.stmt_touches(key, sz, tracked)
                 layout = scratch_blocks(m, env)
+                for bi, q in enumerate(out_params):
+                    layout[q] = (1000 + bi, 0, 1 << 30)
             except (NeedConcrete, OpaqueValue, AnalysisError, ZeroDivisionError):
                 continue
             evaluated += 1
-            owner: Dict[Tuple[int, int], str] = {}
-            for L, (b, base, size) in layout.items():
-                for c in range(size):
-                    owner[(b, base + c)] = L
+            class _Owner:
+                def get(self, g: Tuple[int, int]) -> Optional[str]:
+                    for L, (b, base, size) in layout.items():
+                        if b == g[0] and base <= g[1] < base + size:
+                            return L
+                    return None
+
+                def __contains__(self, g: Tuple[int, int]) -> bool:
+                    return self.get(g) is not None
+
+                def __getitem__(self, g: Tuple[int, int]) -> str:
+                    r = self.get(g)
+                    assert r is not None
+                    return r
+            owner = _Owner()
             assigned: Set[Tuple[int, int]] = set()
             first_cls: Dict[str, Optional[str]] = {}
             for idx, op in enumerate(m.body):
                 if op[0] == 'label' or idx in cells.values():
                     continue
-                classes = _effect_on(stl, op, set(cells), env)
-                for via in sorted(cells):
+                classes = _effect_on(stl, op, tracked, env)
+                for via in sorted(tracked):
                     b, base, _size = layout[via]
                     G = {(b, base + o // dw) for o in touches[idx][via]}
                     if not G:
@@ -548,6 +573,7 @@ def _effect_on(stl: Stl, op: Tuple[Any, ...], labels: Set[str], env: Dict[str, A
         return {}
     eff = doc_effects(cal)
     per: Dict[str, List[Optional[str]]] = {}
+    forms: List[Tuple[str, Dict[str, int]]] = []
     for q, a in zip(cal.params, args):
         try:
             lf = ev(a, env2)
@@ -556,6 +582,11 @@ def _effect_on(stl: Stl, op: Tuple[Any, ...], labels: Set[str], env: Dict[str, A
         syms = [k for k in lf if k != '']
         if len(syms) == 1 and syms[0] in labels and lf[syms[0]] == 1:
             per.setdefault(syms[0], []).append(eff.get(q))
+            forms.append((q, lf))
+    # the zeroing idiom `xor x, x` (x ^= x): an update whose source IS its destination is a plain assignment of 0
+    if name.split('.')[-1] == 'xor' and len(forms) == 2 and forms[0][1] == forms[1][1] and len(args) in (2, 3):
+        for L in per:
+            per[L] = ['assign']
     out: Dict[str, Optional[str]] = {}
     for L, classes in per.items():
         if all(c == 'assign' for c in classes):
@@ -567,6 +598,102 @@ def _effect_on(stl: Stl, op: Tuple[Any, ...], labels: Set[str], env: Dict[str, A
         else:
             out[L] = None
     return out
+
+
+# ---------------------------------------------------------------- FJ.ALIAS (documented aliasing hazards are respected by callers)
+
+def doc_alias_hazards(m: Macro) -> List[Tuple[str, str, str]]:
+    """(kind, p, q) from the doc block: ('equal', p, q) the macro breaks when p == q; ('overlap', p, q) it breaks when the
+    documented extents of p and q overlap without being the same address."""
+    out: List[Tuple[str, str, str]] = []
+    text = ' '.join(l[2:].strip() for l in m.doc)
+    for a, b in re.findall(r"(?:doesn't work if|[Uu]nsafe for|[Uu]nsafe if)\s+(\w+)\s*==\s*(\w+)", text):
+        if a in m.params and b in m.params:
+            out.append(('equal', a, b))
+    for a, b in re.findall(r"(?:doesn't work if|[Uu]nsafe if)\s+(\w+) and (\w+) overlap", text):
+        if a in m.params and b in m.params:
+            out.append(('overlap', a, b))
+    return out
+
+
+ALIAS_SIZES = {'times': (0, 1, 4, 5)}
+
+
+def rule_alias(rep: Report, stl: Stl, prop: str, files: List[str], floor: int, w: int = 64) -> None:
+    rule = f'{prop}.ALIAS'
+    rep.rule(rule, 'a macro whose documentation says it breaks when two operands coincide (or overlap) is never applied to operands '
+             'that coincide for some allowed size: at every call site the two argument addresses are compared as linear forms over '
+             'the caller\'s operands for sizes in {4,5,8}, shift counts including 0, and every rep index; a caller\'s own local label '
+             'never aliases anything else; operands that are different parameters of the caller are the caller\'s contract (not judged)', floor)
+    fpx = Footprints(stl, w)
+    dw = 2 * w
+    hazards = {k: h for k, m in stl.macros.items() for h in [doc_alias_hazards(m)] if h}
+    for key, m in sorted(stl.macros.items()):
+        if m.file not in files:
+            continue
+        sites = [(i, op) for i, op in enumerate(m.body) if op[0] in ('call', 'rep')
+                 and ((op[1], len(op[2])) if op[0] == 'call' else (op[3], len(op[4]))) in hazards]
+        if not sites:
+            continue
+        names = size_params(fpx, key)
+        if names is None:
+            rep.uncovered.append(f'{key[0]}/{key[1]}: call sites of hazard-documented macros (sizes not computable)')
+            continue
+        for i, op in sites:
+            ck = (op[1], len(op[2])) if op[0] == 'call' else (op[3], len(op[4]))
+            cal = stl.macros[ck]
+            args = op[2] if op[0] == 'call' else op[4]
+            for kind, pa, pb in hazards[ck]:
+                bad: List[str] = []
+                judged = 0
+                for combo in itertools.product(*[ALIAS_SIZES.get(nm, EXTRA_SIZES.get(nm, SIZES)) for nm in names]):
+                    sz = dict(zip(names, combo))
+                    pre = PRECONDITIONS.get(key)
+                    if pre is not None and not pre(sz):
+                        continue
+                    env: Dict[str, Any] = dict(fpx.base)
+                    for q in m.params:
+                        env[q] = {q: 1}
+                    env.update(sz)
+                    try:
+                        reps = range(max(conc(ev(op[1], env)), 0)) if op[0] == 'rep' else [None]
+                    except (NeedConcrete, OpaqueValue):
+                        continue
+                    for it in reps:
+                        e2 = dict(env)
+                        if it is not None:
+                            e2[op[2]] = it
+                        try:
+                            la, lb = ev(args[cal.params.index(pa)], e2), ev(args[cal.params.index(pb)], e2)
+                            ext = 1
+                            if kind == 'overlap':
+                                ce = dict(fpx.base)
+                                for q, a in zip(cal.params, args):
+                                    try:
+                                        ce[q] = conc(ev(a, e2))
+                                    except (NeedConcrete, OpaqueValue):
+                                        pass
+                                exts = doc_extents(cal).get(pa, set())
+                                ext = max([conc(ev(parse_extent(E), ce)) for E in exts] or [1])
+                        except (NeedConcrete, OpaqueValue, AnalysisError):
+                            continue
+                        d = lin_add(la, lb, -1)
+                        if any(k != '' and v != 0 for k, v in d.items()):
+                            continue            # different base symbols: the caller's own contract / a fresh local label
+                        judged += 1
+                        delta = d.get('', 0)
+                        clash = (delta == 0) if kind == 'equal' else (delta != 0 and abs(delta) < ext * dw)
+                        if clash:
+                            bad.append(f'{sz}' + (f' i={it}' if it is not None else '') + f': {pa} - {pb} = {delta} bits')
+                if not judged:
+                    rep.ok(rule, f'{key[0]}/{key[1]}:line-order {sum(1 for j, _ in sites if j <= i)}:{cal.name}({pa},{pb}):{kind}',
+                           'operands have different base symbols (the caller\'s own contract, or a fresh local label)',
+                           f'{m.file}:{op[-1]} {m.name}', nontrivial=False)
+                else:
+                    rep.check(not bad, rule, f'{key[0]}/{key[1]}:line-order {sum(1 for j, _ in sites if j <= i)}:{cal.name}({pa},{pb}):{kind}',
+                              bad[0] if bad else f'{judged} instantiations: never {"equal" if kind == "equal" else "partially overlapping"}',
+                              f'{m.file}:{op[-1]} {m.name}', expected=f'{cal.name} is documented to break when {pa} and {pb} '
+                              + ('are the same address' if kind == 'equal' else 'overlap'))
 
 
 # ---------------------------------------------------------------- FJ.LUT (C04)
@@ -669,13 +796,13 @@ def rule_lut(rep: Report, stl: Stl, w: int = 64) -> None:
 
 def rule_carry(rep: Report, stl: Stl) -> None:
     rule = 'C04.CARRY'
-    rep.rule(rule, 'no stale carry leaks: every macro that applies the carry-chained single-hex hex.add / hex.sub (directly or in a rep) '
-             'clears that namespace\'s carry before the first and after the last application', 4)
+    rep.rule(rule, 'no stale carry leaks: every macro that applies the carry-chained single-hex hex.add / hex.sub / hex.add_mul (directly or in a rep) '
+             'clears that namespace\'s carry before the first and after the last application', 5)
     n = 0
     for key, m in sorted(stl.macros.items()):
         calls = [(i, op) for i, op in enumerate(m.body) if op[0] in ('call', 'rep')]
-        for kind in ('add', 'sub'):
-            target = f'hex.{kind}'
+        for kind in ('add', 'sub', 'mul'):
+            target = 'hex.add_mul' if kind == 'mul' else f'hex.{kind}'      # the carry-chained single-hex step of each namespace
             idx = [i for i, op in calls if (op[1] if op[0] == 'call' else op[3]) == target and len(op[2] if op[0] == 'call' else op[4]) == 2]
             if not idx:
                 continue
@@ -684,10 +811,11 @@ def rule_carry(rep: Report, stl: Stl) -> None:
             before = [nm for i, nm, a in names if i < idx[0]]
             after = [nm for i, nm, a in names if i > idx[-1]]
             clr = f'hex.{kind}.clear_carry'
-            ok = bool(before) and before[-1] in (clr, f'hex.{kind}.set_carry') and bool(after) and after[0] == clr
-            rep.check(ok, rule, f'{key[0]}/{key[1]}:{kind}-chain', f'before: {before[-1:]}; after: {after[:1]}', f'{m.file}:{m.line} {m.name}',
-                      expected=f'{clr} (or set_carry) before the chain and {clr} right after it')
-    if n < 4:
+            # statements between the bracket and the chain may set up operands (e.g. `.xor .mul.dst, b`), but are no chain steps
+            ok = any(b in (clr, f'hex.{kind}.set_carry') for b in before) and clr in after
+            rep.check(ok, rule, f'{key[0]}/{key[1]}:{kind}-chain', f'before: {before[-2:]}; after: {after[:2]}', f'{m.file}:{m.line} {m.name}',
+                      expected=f'{clr} (or set_carry) before the first chain step and {clr} after the last one')
+    if n < 5:
         raise AnalysisError(f'{rule}: only {n} carry chains found')
     # clear_carry really resets: both forms end with the carry/table state restored (structure check: they wflip tables.ret back)
     for kind in ('add', 'sub'):
@@ -695,6 +823,47 @@ def rule_carry(rep: Report, stl: Stl) -> None:
             m = stl.macros.get((f'hex.{kind}.clear_carry', ar))
             if m is None:
                 raise AnalysisError(f'{rule}: hex.{kind}.clear_carry/{ar} missing')
+
+
+def _expr_ids(e: Any, out: Set[str]) -> Set[str]:
+    if isinstance(e, tuple):
+        if e and e[0] == 'id':
+            out.add(e[1])
+        for x in e[1:]:
+            _expr_ids(x, out)
+    elif isinstance(e, list):
+        for x in e:
+            _expr_ids(x, out)
+    return out
+
+
+def rule_ret_restore(rep: Report, stl: Stl, files: List[str]) -> None:
+    rule = 'C04.RET-RESTORE'
+    rep.rule(rule, 'the shared return registers of the table code (labels named *.ret that are not parameters or local labels of the '
+             'macro) are left as found: every `wflip <reg>+w, <value>` that points such a register somewhere is matched in the same macro '
+             'by a second wflip with the same address and value (xor twice restores it); a register left pointing into one macro '
+             'sends the next table user to a stale return address', 6)
+    for key, m in sorted(stl.macros.items()):
+        if m.file not in files:
+            continue
+        own = set(m.params) | set(m.local)
+        by_reg: Dict[Tuple[str, str], int] = {}
+        for op in m.body:
+            if op[0] != 'wflip':
+                continue
+            a = op[1]
+            ids = _expr_ids(a[0], set()) - {'w', 'dw', 'dbit'}
+            if len(ids) != 1 or ids & own:
+                continue
+            reg = next(iter(ids))
+            if not reg.endswith('.ret'):
+                continue
+            k = (repr(a[0]), repr(a[1]))
+            by_reg[k] = by_reg.get(k, 0) + 1
+        for (addr, val), cnt in sorted(by_reg.items()):
+            reg = re.search(r"'id', '([^']+)'", addr).group(1)        # type: ignore[union-attr]
+            rep.check(cnt % 2 == 0, rule, f'{key[0]}/{key[1]}:{reg}', f'{cnt} wflip(s) with this address and value',
+                      f'{m.file}:{m.line} {m.name}', expected='an even number: set, then restored')
 
 
 # ---------------------------------------------------------------- FJ.SP / FJ.PTR-STRIDE (C08)
@@ -845,6 +1014,74 @@ def _stack_cell_sequence(stl: Stl, key: Tuple[str, int], n: int, w: int) -> List
             off = lf.get('', 0) // (2 * w)
             out.extend(range(off, off + width) if 'push' in key[0] else range(off + width - 1, off - 1, -1))
     return out
+
+
+def ptr_lanes(stl: Stl, key: Tuple[str, int], env: Dict[str, Any], depth: int = 0) -> Set[int]:
+    """hex lanes (0 = low nibble, 1 = high nibble, ..) of the pointed cell that a macro xors into through to_flip."""
+    if depth > 12:
+        raise AnalysisError(f'ptr_lanes recursion at {key}')
+    m = stl.macros[key]
+    if key == ('hex.pointers.xor_hex_to_flip_ptr', 2):
+        sh = conc(ev(('id', 'bit_shift'), env))
+        if sh % 4:
+            raise AnalysisError(f'xor_hex_to_flip_ptr with bit_shift {sh}')
+        return {sh // 4}
+    lanes: Set[int] = set()
+    for op in m.body:
+        if op[0] == 'call':
+            items = [(op[1], op[2], env)]
+        elif op[0] == 'rep':
+            try:
+                cnt = conc(ev(op[1], env))
+            except (NeedConcrete, OpaqueValue):
+                continue
+            items = [(op[3], op[4], {**env, op[2]: i}) for i in range(max(cnt, 0))]
+        else:
+            continue
+        for name, args, e2 in items:
+            ck = (name, len(args))
+            cal = stl.macros.get(ck)
+            if cal is None or not (cal.file.endswith('xor_to_pointer.fj') or cal.file.endswith('write_pointers.fj')):
+                continue
+            ce = dict(base_env(env['w']))
+            for q, a in zip(cal.params, args):
+                try:
+                    ce[q] = conc(ev(a, e2))
+                except (NeedConcrete, OpaqueValue):
+                    ce[q] = {q: 1}
+            lanes |= ptr_lanes(stl, ck, ce, depth + 1)
+    return lanes
+
+
+def rule_cell_width(rep: Report, stl: Stl, w: int = 64) -> None:
+    rule = 'C08.CELL-WIDTH'
+    rep.rule(rule, 'read-modify-write through a pointer: the hex lanes a write macro xors back into the pointed cell are exactly the lanes '
+             'of the value it combined with the fetched byte (`xor k, read_byte, src` <-> lanes 0..k-1), and hex.zero_ptr - which the '
+             'return-address push relies on to clean a reused stack cell - clears every lane that any single-cell write macro can set', 4)
+    env = dict(base_env(w))
+    lanes: Dict[str, Set[int]] = {}
+    for name in ('hex.write_hex', 'hex.write_byte'):
+        key = (name, 2)
+        m = stl.macros.get(key)
+        if m is None:
+            raise AnalysisError(f'{rule}: {name}/2 missing')
+        lanes[name] = ptr_lanes(stl, key, env)
+        k = None
+        for op in m.body:
+            if op[0] == 'call' and op[1] == 'hex.xor' and any(_expr_ids(a, set()) & {'hex.pointers.read_byte'} for a in op[2]):
+                k = 1 if len(op[2]) == 2 else conc(ev(op[2][0], env))
+        rep.check(k is not None and lanes[name] == set(range(k)), rule, f'{name}/2:rmw-width', f'value width {k} hex; lanes xor-ed back {sorted(lanes[name])}',
+                  f'{m.file}:{m.line} {m.name}', expected='lanes 0..k-1')
+    z = stl.macros.get(('hex.zero_ptr', 1))
+    if z is None:
+        raise AnalysisError(f'{rule}: hex.zero_ptr/1 missing')
+    zl = ptr_lanes(stl, ('hex.zero_ptr', 1), env)
+    need = set().union(*lanes.values())
+    rep.check(zl >= need, rule, 'hex.zero_ptr/1:clears-all-lanes', f'clears lanes {sorted(zl)}; writers set lanes {sorted(need)}', f'{z.file}:{z.line} {z.name}',
+              expected='a superset of every lane a write macro can set')
+    users = [k for k, m in stl.macros.items() if any(op[0] == 'call' and op[1] == 'hex.zero_ptr' for op in m.body)]
+    rep.check(('hex.push_ret_address', 1) in users, rule, 'hex.zero_ptr/1:users', str(sorted(users)), f'{z.file}:{z.line}',
+              expected='used by the return-address push before the address is xor-ed in')
 
 
 def rule_ptr_stride(rep: Report, stl: Stl) -> None:
